@@ -425,6 +425,11 @@ theorem throttle_run_refines_schedules (c : HsCtrl) (U : List String) (reqs : Li
     refine ⟨?_, i2, i3⟩
     rw [i1, c1]
 
+/-- the hotspot slot's dispatch is `checkThrottle` for a QPS rule with the throttling strategy -/
+theorem check_is_checkThrottle (c : HsCtrl) (now : Nat) (arg : String) (batch : Nat) (hm : c.rule.metric = .qps) (hs : c.rule.strategy = .throttling) :
+    c.check now arg batch = c.checkThrottle now arg batch := by
+  unfold HsCtrl.check; rw [hm, hs]
+
 /-! ## non-vacuity -/
 example : (throttleRun "t" (F64.ofNat 2) 1000000000 500000000 [(10, 1), (5, 1), (0, 1)]).2.length = 1 := by decide
 
